@@ -1,7 +1,7 @@
 """C12 - the offline arena plan is self-consistent and reported memory is sufficient (decided on the output file)."""
 import re
 
-from .. import netrun, outfile
+from .. import forced, netrun, outfile
 from ..npu import decode as D
 from ..npu import footprint as F
 from .c02 import _key, separate_cache
@@ -147,4 +147,4 @@ def run(ctx):
              "OfflineMemoryAllocation metadata, sizes from shape x type, liveness from the output operator order; pairwise live-overlap, alignment, scratch container and reported sizes are checked",
         assumptions=["scratch / fast-scratch tensors are containers (DESIGN.md A8); in-place input/output aliasing inside one Ethos-U operator is delegated to C03",
                      "summary CSV figures are KiB; arena is DRAM in Dedicated_Sram and the Ethos-U65 default, SRAM otherwise"],
-        nontrivial_stat="live_pairs", key_fn=_key)
+        extra_cases=forced.forced_cases(ctx.tier), nontrivial_stat="live_pairs", key_fn=_key)
